@@ -299,7 +299,9 @@ def burst(rng, sid):
     for _ in range(305):
         did += 1; P.do(c, "u0.send_to 10.0.1.1:7001 len=65535 bufs=1 id=%d" % did)
     fill = 20000000 - 305 * 65563 - 28            # payload length that makes the horizon exactly 200 ms
-    did += 1; P.do(c, "u0.send_to 10.0.1.1:7001 len=%d bufs=2 id=%d" % (fill + rng.choice([-1, 0, 0, 1]), did))
+    k = "".join(ch for ch in sid if ch.isdigit())
+    off = [0, 1, -1][int(k) % 3] if k else rng.choice([-1, 0, 0, 1])
+    did += 1; P.do(c, "u0.send_to 10.0.1.1:7001 len=%d bufs=2 id=%d" % (fill + off, did))
     for ln in [1, 65535, 0, 65536, 100]:
         did += 1; P.do(c, "u0.send_to %s len=%d bufs=1 id=%d" % (rng.choice(["10.0.1.1:7001", "10.0.1.1:7099"]), ln, did))
     # sends to a port nobody is bound to do not consume NIC time
@@ -319,7 +321,7 @@ def base(rng, sid):
 FAMILIES = dict(base=base, leak=leak, reopen=reopen, sizes=sizes, fanin=fanin, overflow=overflow, burst=burst)
 
 QUICK = dict(base=500, reopen=360, sizes=160, fanin=160, overflow=24, burst=3, leak=10)
-THOROUGH = dict(base=5000, reopen=4000, sizes=2000, fanin=2000, overflow=200, burst=24, leak=120)
+THOROUGH = dict(base=16000, reopen=12000, sizes=6000, fanin=6000, overflow=600, burst=48, leak=400)
 
 
 def generate(seed, tier, family=None, n=None):
